@@ -19,6 +19,7 @@ import GripGen.C13Buffers
 import GripProofs.Lemmas.C13
 import GripProofs.Lemmas.C13Tagged
 import GripProofs.Lemmas.C13Deal
+import GripProofs.Lemmas.C13Progress
 
 namespace Grip.Props.C13
 open Grip.C13 Grip.C13.Spec
@@ -198,6 +199,33 @@ theorem queue_fifo_generated {α : Type} (xs : List α) (s : Q α)
     (h : Reach (qAct { popsHead := GripGen.C13Buffers.queuePopsHead }) (qInit xs) s) :
     StageOK xs s.out s.outClosed (s.inp.isEmpty && s.inClosed) :=
   queue_fifo _ (by decide) xs s h
+
+/-! ## the liveness half of "closes its output exactly when its input is exhausted" — PARTIAL
+
+  Proved: in the models (channels unbounded) no state with an open output is stuck: some
+  goroutine can always act, for every reachable state.  Missing for the full clause "the output IS
+  eventually closed": (1) termination of every run (a decreasing measure), (2) the channel
+  capacities (a bounded channel can block a sender; deadlock freedom under the real bounds 10 /
+  nworkers*10 / 50 / 250 / 100 is only sampled by the correspondence run under a timeout),
+  (3) fairness of the Go scheduler.  The batcher is omitted: its loop can idle forever while
+  the producer is silent, closure depends on the environment closing the input. -/
+
+theorem rr_no_deadlock_partial {α β : Type} (c : RRCfg) (f : α → β) (s : RR α β)
+    (h : s.outClosed = false) : ∃ a, (rrAct c f a s).isSome = true :=
+  Lemmas.rr_progress c f s h
+
+theorem mux_no_deadlock_partial {α β : Type} (c : MuxCfg) (hc : c.idxIsOrder = true) (g : Nat → α → β)
+    (puts : List (Nat × α)) (s : Mux α β) (hr : Reach (muxAct c g) (muxInit puts) s)
+    (h : s.outClosed = false) : ∃ a, (muxAct c g a s).isSome = true :=
+  Lemmas.mux_progress c hc g puts s hr h
+
+theorem dual_no_deadlock_partial {ρ δ : Type} (isSig : ρ → Bool) (loader : ρ → List δ) (des : ρ → δ → ρ)
+    (s : Dual ρ δ) (h : s.outClosed = false) : ∃ a, (dualAct isSig loader des a s).isSome = true :=
+  Lemmas.dual_progress isSig loader des s h
+
+theorem queue_no_deadlock_partial {α : Type} (c : QCfg) (hc : c.popsHead = true) (xs : List α) (s : Q α)
+    (hr : Reach (qAct c) (qInit xs) s) (h : s.outClosed = false) : ∃ a, (qAct c a s).isSome = true :=
+  Lemmas.q_progress c hc xs s hr h
 
 /-! ## non-vacuity: closed states are reachable (the hypotheses above are satisfiable), and the
     configuration hypotheses are needed (the mutated configurations do lose or reorder items) -/
